@@ -28,7 +28,7 @@ CFGS_QUICK = [("ai", "MP4", "IP_A"), ("at", "MP4", "IP_A"), ("bi", "MP4", "IP_B"
 CFGS_THOROUGH = CFGS_QUICK + [("dt", "MP5", "IP_D"), ("ei", "MP5", "IP_E")]
 
 
-LOOSE = ("TraceFibreIrqLoose", "TraceFibreIrqLoose.cfg", lambda r: len(r.get("isr", [])) <= 4, 2500)
+LOOSE = ("TraceFibreIrqLoose", "TraceFibreIrqLoose.cfg", lambda r: len(r.get("isr", [])) <= 4 or r.get("seq") == 1, 2500)
 
 
 def conv(name, args):
@@ -84,7 +84,13 @@ def run_irq(run, for_c03=False, exe=None, cfgs=None, nrandom=None, tagp="", vali
     if validate:
         payload_handover(run, "irq-random-handover", tr)
         check_trace(run, "irq-random-schedules", "TraceFibreIrq", "TraceFibreIrq.cfg", tr, loose=LOOSE)
-    return [allp, tr]
+    # the atomic run queue full (and refusing) between two passes of a main loop that has nothing else to look at
+    nf = 600 if run.thorough() else 80
+    trf = exec_script(run, exe, [], "Full %d %d\n" % (run.seed * 10 + 3, nf), run.path(tagp + "firq-full.ndjson"), "irq-full-queue")
+    if validate:
+        payload_handover(run, "irq-full-queue-handover", trf)
+        check_trace(run, "irq-full-queue", "TraceFibreIrq", "TraceFibreIrq.cfg", trf, loose=LOOSE)
+    return [allp, tr, trf]
 
 
 def payload_handover(run, what, trace):
